@@ -100,6 +100,11 @@ pub fn oracles_for(prop: &str, c: &Case, impl_result: &str) -> Vec<Verdict> {
         ("C20", Case::Geo(extra::GeoCase::G2S(g))) => v.push(extra::oracle_c20_geo(g)),
         ("C20", Case::Geo(extra::GeoCase::Dims(d, p))) => v.push(extra::oracle_c20_dims(*d, p)),
         ("C08", Case::DbfHist { base, ops }) => v.push(extra::oracle_c08(base, ops)),
+        (_, Case::Scenario(a)) => {
+            if let Some(x) = extra::oracle_scenario(prop, a) {
+                v.push(x);
+            }
+        }
         ("C16", Case::Construct(c)) => v.push(oracle_c16(c)),
         ("C16", Case::Ring(d, r, ps)) => v.push(oracle_c16(&Ctor::PolygonRings(*d, vec![(*r, ps.clone())]))),
         ("C18", Case::Size(c)) => v.push(oracle_c18(c)),
@@ -178,6 +183,23 @@ fn cases_for(prop: &str, tier: &str, seed: u64, out: &mut Out) {
                         let (shp2, _) = write_files(false, &shapes);
                         let id = out.oracle_only_id();
                         out.verdict(&id, &show_case(&c), if shp2 == shp { Verdict::pass() } else { Verdict::fail("wellformed-shx-dependence", ".shp bytes depend on whether an index is written".into()) });
+                        // "after finalize or drop": the same shapes with finalize calls interleaved at
+                        // random places must leave a file the independent decoder reads identically
+                        let mut ops: Vec<WOp> = vec![];
+                        for ct in ctors.iter() {
+                            if rng.chance(1, 3) {
+                                ops.push(WOp::Finalize);
+                            }
+                            ops.push(WOp::Write(ct.clone()));
+                        }
+                        if rng.chance(1, 2) {
+                            ops.push(WOp::Finalize);
+                        }
+                        let ending = if rng.chance(1, 2) { "drop" } else { "fdrop" };
+                        let h = run_whist(true, ending, &ops, LogDst::new(), LogDst::new());
+                        if h.panicked.is_none() {
+                            out.case(&Case::SpecDecode { shp: h.shp.data(), expected: flat_expected(&shapes) });
+                        }
                     }
                     "C04" => {
                         let n = shapes.len();
@@ -245,10 +267,18 @@ fn cases_for(prop: &str, tier: &str, seed: u64, out: &mut Out) {
             }
         }
         "C07" | "C17" => extra::cases_malformed(prop, tier, &mut rng, &mut stats, out),
-        "C09" | "C10" => extra::cases_whist(prop, tier, &mut rng, &mut stats, out),
+        "C09" | "C10" => {
+            extra::cases_whist(prop, tier, &mut rng, &mut stats, out);
+            if prop == "C10" {
+                extra::cases_dbf_c10(tier, &mut stats, out);
+            }
+        }
         "C11" => extra::cases_crash(tier, &mut rng, &mut stats, out),
         "C12" => extra::cases_fault(tier, &mut rng, &mut stats, out),
-        "C15" => extra::cases_rhist(tier, &mut rng, &mut stats, out),
+        "C15" => {
+            extra::cases_rhist(tier, &mut rng, &mut stats, out);
+            extra::cases_pairs_c15(tier, &mut stats, out);
+        }
         "C08" => extra::cases_dbf(tier, &mut rng, &mut stats, out),
         "C20" => extra::cases_geo(tier, &mut rng, &mut stats, out),
         "C16" => {
